@@ -156,7 +156,7 @@ def other_rows(run, rows, quick):
                 alg = rec["alg"]
                 for nb in ([16, 24, 32] if alg in ("AES", "CAMELLIA") else [24, 16] if alg == "TRIPLE_DES" else [16, 20]):
                     ku, kv = s.key(nb, "AES" if alg.startswith("HMAC") or alg in ("RSA", "NONE") else alg, seed=2)
-                    for m in msgs[1:] if not quick else msgs[1:4]:
+                    for m in msgs[1:]:
                         r = item(s.drv.request(D.one("MAC", {"uid": ku, "cp": {"alg": None if alg == "NONE" else alg}, "data": m.hex()}, ver=(1, 4))))
                         n += 1
                         sig = {"k": "mac", "alg": alg, "keylen": nb}
@@ -186,7 +186,7 @@ def other_rows(run, rows, quick):
                 if d["method"] == "ENCRYPT":
                     continue
                 data, salt = b"derivation-data", b"NaCl-salt"
-                for (otype, nbytes) in ([("SymmetricKey", 16), ("SecretData", 32)] if not quick else [("SymmetricKey", 16)]):
+                for (otype, nbytes) in [("SymmetricKey", 16), ("SecretData", 32)]:
                     dp = {"cp": {"hash": None if d["hash"] == "NONE" else d["hash"]},
                           "data": data.hex() if d["hasdata"] else None, "salt": salt.hex() if d["hassalt"] else None,
                           "iter": 7 if d["hasiter"] else None}
@@ -362,7 +362,7 @@ def signatures(run, quick):
         # generated symmetric keys: requested length, fresh on every call
         seen = set()
         for ln in (128, 192, 256):
-            for _ in range(6 if quick else 40):
+            for _ in range(12 if quick else 40):
                 r = item(s.drv.request(D.one("Create", {"otype": "SymmetricKey", "attrs": [
                     {"name": "Cryptographic Algorithm", "v": "AES"}, {"name": "Cryptographic Length", "v": ln},
                     {"name": "Cryptographic Usage Mask", "v": ["ENCRYPT"]}]})))
@@ -406,7 +406,7 @@ def check(run, tier):
     rest = [r for r in rows if r["k"] != "enc"]
     n = common.NCPU
     with multiprocessing.Pool(n) as pool:
-        outs = pool.map(_enc_rows, [(enc[i::n], common.SEED * 17 + i, 2 if quick else 6) for i in range(n)])
+        outs = pool.map(_enc_rows, [(enc[i::n], common.SEED * 17 + i, 4 if quick else 8) for i in range(n)])
     nrun = 0
     for out in outs:
         for o in out:
